@@ -114,9 +114,13 @@ def run(prog, rep):
                 continue
             X = st.tags.get("found")
             stores = [s for s in st.tags.get("stores", ()) if s[0][0] == "fld" and s[0][2] in ("key", "value")]
-            if X is None or not stores:
+            if X is None:
                 continue
             nrep += 1
+            if not stores:
+                ok2, msg2, where2 = False, "line %d: insert returns on the equal-key path without storing the new pair: the old key stays in the tree and is not handed to " \
+                                           "its notifier at the replacing call, the caller's new key is neither stored nor destroyed" % line(stmt), line(stmt)
+                continue
             for fld, role, lst, newv in (("key", "kd", kd, keyp), ("value", "vd", vd, valp)):
                 old = ("m0", ("fld", X, fld))
                 mine = [s for s in stores if s[0] == ("fld", X, fld)]
@@ -207,6 +211,9 @@ def run(prog, rep):
     rep.floor("C14.4", 9)
 
 
+# generic robustness battery: renaming every local/parameter in these files must not change any verdict
+RENAME_LOCALS = ['src/ptree.c', 'src/ptree-bst.c', 'src/ptree-rb.c', 'src/ptree-avl.c']
+
 SELFTEST = [
     dict(id="bst-copy-without-swap", file="src/ptree-bst.c", expect="C14.1",
          old="\t\tprev_node->key   = tmp_key;\n\t\tprev_node->value = tmp_value;\n", new=""),
@@ -220,6 +227,9 @@ SELFTEST = [
          new="\t\t(*cur_node)->key   = key;\n\n\t\tif (key_destroy_func != NULL)\n\t\t\tkey_destroy_func ((*cur_node)->key);\n\n\t\tif (value_destroy_func != NULL)\n\t\t\tvalue_destroy_func ((*cur_node)->value);\n\n\t\t(*cur_node)->value = value;"),
     dict(id="rb-replace-keeps-old-key", file="src/ptree-rb.c", expect="C14.2",
          old="\t\t(*cur_node)->key   = key;\n\t\t(*cur_node)->value = value;\n\n\t\treturn FALSE;", new="\t\t(*cur_node)->value = value;\n\n\t\treturn FALSE;"),
+    dict(id="bst-replace-skipped-for-same-value", file="src/ptree-bst.c", expect="C14.2",
+         old="\t} else {\n\t\tif (key_destroy_func != NULL)\n\t\t\tkey_destroy_func ((*cur_node)->key);",
+         new="\t} else {\n\t\tif ((*cur_node)->value == value)\n\t\t\treturn FALSE;\n\n\t\tif (key_destroy_func != NULL)\n\t\t\tkey_destroy_func ((*cur_node)->key);"),
     dict(id="avl-destroy-without-null-test", file="src/ptree-avl.c", expect="C14.4", count=1,
          old="\tif (key_destroy_func != NULL)\n\t\tkey_destroy_func (cur_node->key);", new="\tkey_destroy_func (cur_node->key);"),
     dict(id="clear-skips-value", file="src/ptree.c", expect="C14.3",
